@@ -34,6 +34,7 @@ type c09case struct {
 	Tasks []c09task `json:"tasks"`
 	Req   []string  `json:"req"`
 	Flags []string  `json:"flags"`
+	Prior bool      `json:"prior_success"` // every task has succeeded on these inputs before the failing (forced) run
 }
 
 func (k c09case) key() string { b, _ := json.Marshal(k); return string(b) }
@@ -88,6 +89,11 @@ func c09Gen(r *core.Rng) c09case {
 		}
 	}
 	k.Flags = core.Pick(r, [][]string{nil, {"--quiet"}, {"--json"}, {"--force"}, {"--quiet", "--force"}, {"--json", "--force"}})
+	for _, f := range k.Flags {
+		if f == "--force" && r.Chance(50) {
+			k.Prior = true
+		}
+	}
 	return k
 }
 
@@ -195,6 +201,21 @@ func c09Judge(c *core.Ctx, k c09case, res *core.ShardResult) (vs []core.Violatio
 	for _, n := range closure {
 		inClosure[n] = true
 	}
+	if k.Prior {
+		// the tasks first succeed on exactly these inputs; the forced run then fails on them
+		flagged, _ := os.ReadDir(sb.Flags)
+		for _, e := range flagged {
+			_ = os.Rename(filepath.Join(sb.Flags, e.Name()), filepath.Join(sb.Root, "off."+e.Name()))
+		}
+		if inv0, _ := run(nil); inv0.Exit != 0 {
+			bad("no-spurious-failure", "no command fails but spok exited %d: %s", inv0.Exit, core.Trunc(inv0.Stderr, 300))
+			return
+		}
+		for _, e := range flagged {
+			_ = os.Rename(filepath.Join(sb.Root, "off."+e.Name()), filepath.Join(sb.Flags, e.Name()))
+		}
+		res.Count("cases_with_prior_success", 1)
+	}
 	// invocation 1
 	inv1, log1 := run(k.Flags)
 	if inv1.Crashed() || inv1.Race || inv1.TimedOut {
@@ -291,7 +312,7 @@ func c09Run(c *core.Ctx) bool {
 	cov := map[string]any{
 		"evaluations":         total.Evaluations,
 		"distinct_nontrivial": distinct,
-		"rule":                "random spokfiles of 1-4 tasks x 1-4 commands (task dependencies, a file dependency each) in which a seeded non-empty subset of commands exits non-zero (exit N, false, a missing program, sh -c 'exit N'; N in {1,2,3,127,255,random}) at any position, in requested tasks or dependencies, under {plain, --quiet, --json, --force, --quiet --force, --json --force}; race-built binary; invocation 1 must fail and name a really failed task (ground truth: the commands' own side-effect log), invocation 2 (plain, unchanged inputs) must run every failed task again, invocation 3 (commands repaired) must run them to success. evaluations = spok invocations; non-trivial = distinct programs whose closure contained a failing command and that passed all three invocations",
+		"rule":                "random spokfiles of 1-4 tasks x 1-4 commands (task dependencies, a file dependency each) in which a seeded non-empty subset of commands exits non-zero (exit N, false, a missing program, sh -c 'exit N'; N in {1,2,3,127,255,random}) at any position, in requested tasks or dependencies, under {plain, --quiet, --json, --force, --quiet --force, --json --force}; race-built binary; (in half of the forced cases every task first succeeds on the same inputs); invocation 1 must fail and name a really failed task (ground truth: the commands' own side-effect log), invocation 2 (plain, unchanged inputs) must run every failed task again, invocation 3 (commands repaired) must run them to success. evaluations = spok invocations; non-trivial = distinct programs whose closure contained a failing command and that passed all three invocations",
 		"samples":             total.Samples,
 		"counters":            total.Counters,
 		"flag_sets_seen":      total.SetValues("flags"),
